@@ -398,6 +398,12 @@ class Result:
         return h.hexdigest()
 
 
+def _ino(path):
+    """A stable inode number per (resolved) name: os.path.samefile works."""
+    import zlib
+    return zlib.crc32(path.encode("utf-8", "surrogateescape")) + 2
+
+
 class _Dirs(set):
     """
     Directories: the registered ones, the mount points, and every prefix of a
@@ -655,7 +661,7 @@ class World:
         path = self.follow(path)
         self.step("stat", path, 0, faultable=False)
         if path in self.dirs:
-            return os.stat_result((statmod.S_IFDIR | 0o755, 0, 0, 1, 0, 0, 0,
+            return os.stat_result((statmod.S_IFDIR | 0o755, _ino(path), 1, 1, 0, 0, 0,
                                    1000, 1000, 1000))
         if path not in self.fs:
             raise FileNotFoundError(errno.ENOENT,
@@ -672,7 +678,7 @@ class World:
                      "st_mtime_ns": 1000 * 10 ** 9,
                      "st_ctime_ns": 1000 * 10 ** 9, "st_blksize": 4096,
                      "st_blocks": 0, "st_rdev": 0}
-            return os.stat_result((statmod.S_IFLNK | 0o777, 0, 0, 1, 0, 0,
+            return os.stat_result((statmod.S_IFLNK | 0o777, _ino("@" + path), 1, 1, 0, 0,
                                    len(self.links[path]), 1000, 1000, 1000),
                                   extra)
         return self.stat(path)
@@ -713,7 +719,7 @@ class World:
                  "st_ctime": float(when), "st_atime_ns": when * 10 ** 9,
                  "st_mtime_ns": when * 10 ** 9, "st_ctime_ns": when * 10 ** 9,
                  "st_blksize": 4096, "st_blocks": 0, "st_rdev": 0}
-        return os.stat_result((statmod.S_IFREG | perm, 0, 0, 1, 0, 0,
+        return os.stat_result((statmod.S_IFREG | perm, _ino(path), 1, 1, 0, 0,
                                len(self.fs[path]), when, when, when), extra)
 
     def temporary_file(self):
